@@ -53,15 +53,23 @@ def dinst():
     return InstArg("self", Types.Decimal, {"required": REQ, "scale": SCALEQ}, build)
 
 
+DEC_POOL = ["0", "1", "-1", "+1", "1.5", "1,5", "-0.005", "12345.67890", "1.245", "1.255", "0.125", ".5", "5.", "1,", ",5",
+            "NaN", "Infinity", "1E+2", "1e-3", "1_0", " 1", "1 ", "abc", "1.2.3", "1,2,3", "--1", "", "1,000.5", "0.00000001",
+            # more significant digits than the default decimal context (28): an amount is exact however long it is
+            "123456789012345678901234567890", "12345678901234567890123.4567895", "-0.1234567890123456789012345678901", "99999999999999999999999999999.99", "-0.00", "0.00", "-0"]
+
+
 def dec_text_sampler(rng):
-    pool = ["0", "1", "-1", "+1", "1.5", "1,5", "-0.005", "12345.67890", "1.245", "1.255", "0.125", ".5", "5.", "1,", ",5",
-            "NaN", "Infinity", "1E+2", "1e-3", "1_0", " 1", "1 ", "abc", "1.2.3", "1,2,3", "--1", "", "1,000.5", "0.00000001"]
+    pool = DEC_POOL
     if rng.random() < 0.6:
         return rng.choice(pool)
     s = rng.choice(["", "-", "+"]) + "".join(rng.choice("0123456789") for _ in range(rng.randint(0, 5)))
     if rng.random() < 0.7:
         s += rng.choice(".,") + "".join(rng.choice("0123456789") for _ in range(rng.randint(0, 6)))
     return s
+
+
+dec_text_sampler.pool = DEC_POOL
 
 
 def places_of(self):
@@ -84,7 +92,9 @@ CONTRACTS = [
              args=[dinst(), TextArg("value", sampler=dec_text_sampler, nonempty=True)], call=meth("convert"),
              kf=[("KF-C10-decimal-lenient", "spec.ofxtypes.lenient_decimal_text(value)")],
              ensures=[("value", "spec.ofxtypes.is_decimal_text(value) and spec.ofxtypes.same_decimal(result, spec.ofxtypes.decimal_value(value, None if self.scale is None else -self.scale.as_tuple().exponent))")],
-             raises=[(decimal.InvalidOperation, "not spec.ofxtypes.is_decimal_text(value)", "must")],
+             raises=[(decimal.InvalidOperation, "not spec.ofxtypes.is_decimal_text(value)", "must"),
+                     # an element with a scale cannot hold more digits than the decimal context has: quantize refuses
+                     (decimal.InvalidOperation, "self.scale is not None and spec.ofxtypes.is_decimal_text(value) and not spec.ofxtypes.py_quantize_ok(spec.ofxtypes.py_decimal(value if spec.ofxtypes.py_decimal_ok(value) else spec.ofxtypes.comma_to_point(value)), self.scale)", "may")],
              native_only=True, samples=3000, props=["C10"]),
     # 2 None / required
     Contract("ofxtools.Types:Decimal.convert",
@@ -136,4 +146,14 @@ CONTRACTS = [
                       ("C11-plain", "spec.ofxtypes.is_plain_decimal_lexical(result[1])"),
                       ("written-denotes-the-value", "__import__('fractions').Fraction(spec.ofxtypes.parse_decimal(result[1])) == __import__('fractions').Fraction(value)")],
              native_only=True, samples=600, props=["C10", "C11"]),
+    # 11 (N) an amount read from text and written again: plain notation denoting exactly the amount that was read
+    Contract("ofxtools.Types:Decimal.convert",
+             args=[dinst(), TextArg("value", sampler=dec_text_sampler, nonempty=True)],
+             call=lambda it, fn, a: (lambda v: (v, a[0].unconvert(v)))(a[0].convert(a[1])),
+             requires=["self.scale is None", "spec.ofxtypes.is_decimal_text(value)"],
+             kf=[("KF-C11-decimal-exponent", "'E' in str(__import__('decimal').Decimal(value.replace(',', '.')))")],
+             ensures=[("exact-value", "__import__('fractions').Fraction(result[0]) == __import__('fractions').Fraction(__import__('decimal').Decimal(value.replace(',', '.')))"),
+                      ("C11-plain", "spec.ofxtypes.is_plain_decimal_lexical(result[1])"),
+                      ("written-denotes-the-amount-read", "__import__('fractions').Fraction(spec.ofxtypes.parse_decimal(result[1])) == __import__('fractions').Fraction(__import__('decimal').Decimal(value.replace(',', '.')))")],
+             native_only=True, samples=600, props=["C10", "C11", "C03"]),
 ]
